@@ -49,7 +49,8 @@ def _case(draw):
             cfg["cMinimumVelocity"] = spec["mv"] * draw(st.floats(0.6, 0.98))
         cfg["max_calc_step_size_feet"] = draw(st.sampled_from([0.5, 0.5, 1.0, 2.0]))
         step = R / draw(st.floats(1.0, 30.0))
-    case = {"cls": cls, "shot": spec, "R": R, "step": step, "ts": draw(st.sampled_from([0.0, 0.0, 0.02, 0.2])), "config": cfg}
+    case = {"cls": cls, "shot": spec, "R": R, "step": step, "ts": draw(st.sampled_from([0.0, 0.0, 0.02, 0.2])), "config": cfg,
+            "prior": draw(gen.prior())}
     if cls == "transonic" and draw(st.integers(0, 3)) == 0:
         # launch a hair above the local speed of sound, so that the sonic crossing happens inside the first integration steps
         # (the muzzle speed is set by the check to (1 + excess) x the station's speed of sound: input placement, not an oracle)
@@ -160,8 +161,10 @@ def check(case):
         for f, nm in ((ZU, "zero-up"), (ZD, "zero-down")):
             if last.flag & f and any(p.flag & f for p in pts):
                 r.bad(f"C15:duplicate-zero-flag-on-terminal-row:{nm}", f"terminal row repeats the {nm} flag")
-    # 2. the request
-    calc = build.calculator(cfg)
+    # 2. the request (possibly on a calculator whose previous run ended supersonic / subsonic / in an error)
+    calc = build.calculator(cfg, prior=case.get("prior"))
+    if case.get("prior"):
+        r.label("calculator-used-before:" + case["prior"])
     sh = build.shot(spec)
     try:
         hit = calc.fire(sh, D.Foot(case["R"]), D.Foot(case["step"]), extra_data=True, time_step=case["ts"])
